@@ -7,7 +7,7 @@ from ..spec import Clock
 from ..canon import Snap
 
 PROPERTY = 'C16'
-CASES = {'quick': 180, 'thorough': 2000}
+CASES = {'quick': 540, 'thorough': 4320}
 BUDGET_S = {'quick': 300, 'thorough': 2400}
 RULE = ('case A (scaled) = a base asset (Storage, SimpleContract, Contract with take, Transport, ExtendedTransport, MultiCommodityContract; windows, '
         'norm != 1, fixed cost rate, grids with freq != main unit) wrapped in a ScaledAsset inside a portfolio with markets, run through the real '
@@ -20,8 +20,8 @@ RULE = ('case A (scaled) = a base asset (Storage, SimpleContract, Contract with 
 ASSUMPTIONS = ['active duration of the fixed costs = the scaled asset\'s own window clipped to the horizon (the wrapper is generated with the same window as its base, or none)',
                'levels, inflow, size and take volumes are volumes/rates of the base and scale with s/norm',
                'value tolerance 1e-5 relative']
-MIN_NONVACUOUS = {'quick': {'scaled.fixed_scale_equals_scaled_parameters': 25, 'scaled.free_scale_is_best': 20, 'scaled.free_scale_reproduced_when_fixed': 15,
-                            'structured.value_equals_flat': 20, 'structured.solution_feasible_in_flat': 20},
+MIN_NONVACUOUS = {'quick': {'scaled.fixed_scale_equals_scaled_parameters': 62, 'scaled.free_scale_is_best': 50, 'scaled.free_scale_reproduced_when_fixed': 37,
+                            'structured.value_equals_flat': 50, 'structured.solution_feasible_in_flat': 50},
                   'thorough': {'scaled.fixed_scale_equals_scaled_parameters': 450, 'scaled.free_scale_is_best': 300, 'structured.value_equals_flat': 400}}
 VOL_KEYS = ('min_cap', 'max_cap', 'cap_in', 'cap_out', 'size', 'start_level', 'end_level', 'inflow')
 
